@@ -371,6 +371,29 @@ func c03Replay(c *Ctx, raw stdjson.RawMessage) {
 
 // ---------------------------------------------------------------- C12
 
+// F-C12-4: the elements of a repeated field tagged zigzag32/zigzag64/fixed32/fixed64 are written and read as
+// plain varints of the Go type (the slice codec drops the flag and never picks the fixed codecs) although TypeOf
+// documents sint32/sint64/fixed32/fixed64.  plainShape is the message the bytes really are an encoding of.
+func plainShape(shape []pField) (out []pField, zig, fixed bool) {
+	out = append([]pField(nil), shape...)
+	for i, f := range out {
+		if f.C != "rep" {
+			continue
+		}
+		switch f.K {
+		case "s32":
+			out[i].K, zig = "i32", true
+		case "s64":
+			out[i].K, zig = "i64", true
+		case "x32":
+			out[i].K, fixed = "u32", true
+		case "x64":
+			out[i].K, fixed = "u64", true
+		}
+	}
+	return
+}
+
 func c12Decode(c *Ctx, k protoCase, finding string) {
 	b, _ := hex.DecodeString(k.Bytes)
 	t := structTypeOf(k.Shape, "")
@@ -381,11 +404,25 @@ func c12Decode(c *Ctx, k protoCase, finding string) {
 		c.Diverge("C12", "proto.Unmarshal("+k.What+")", "no panic", p, finding, k)
 		return
 	}
+	ps, zig, fixed := plainShape(k.Shape)
 	if err != nil {
+		if fixed && strings.Contains(err.Error(), "wire type") {
+			finding = "F-C12-4" // fixed-width elements arrive where the code expects varints
+		}
+		if zig && strings.Contains(err.Error(), "overflow") {
+			if _, rerr := refDecode(ps, b); rerr == nil {
+				finding = "F-C12-4" // the zig-zag bits of an element read as a plain int32 do not fit
+			}
+		}
 		c.Diverge("C12", "proto.Unmarshal("+k.What+")", k.Want, "error: "+err.Error(), finding, k)
 		return
 	}
 	if got := treeString(treeOfGo(k.Shape, out.Elem())); got != k.Want {
+		if zig || fixed {
+			if tr, rerr := refDecode(ps, b); rerr == nil && treeString(tr) == got {
+				finding = "F-C12-4" // exactly the standard bytes read as the plain message
+			}
+		}
 		c.Diverge("C12", "proto.Unmarshal("+k.What+")", k.Want, got, finding, k)
 	}
 }
@@ -405,6 +442,11 @@ func c12Encode(c *Ctx, k protoCase) {
 	}
 	if bigNumber(k.Shape) {
 		finding = "F-C12-3"
+	}
+	if ps, zig, fixed := plainShape(k.Shape); zig || fixed {
+		if tr, rerr := refDecode(ps, b); rerr == nil && treeString(tr) == want {
+			finding = "F-C12-4" // the bytes are exactly the encoding of the plain message
+		}
 	}
 	tr, rerr := refDecode(k.Shape, b)
 	if rerr != nil {
@@ -688,8 +730,10 @@ func c07Vector(c *Ctx, raw stdjson.RawMessage) {
 	c.Case()
 	mv := mk("valid", canon, want)
 	mv.Meter = r.intn(6) == 0
-	if bigNumber(v.Shape) {
-		mv.Want = "" // F-C12-3: tag numbers above 65535 are truncated; the decoded value is C12's business
+	_, zigRep, fixRep := plainShape(v.Shape)
+	repTagged := zigRep || fixRep
+	if bigNumber(v.Shape) || repTagged {
+		mv.Want = "" // F-C12-3 (tag numbers above 65535 truncated), F-C12-4 (repeated zig-zag / fixed kinds): the decoded value is C12's business
 	}
 	c07Total(c, mv)
 	c07Scan(c, mk("valid", canon, ""), v.Wire)
@@ -701,7 +745,7 @@ func c07Vector(c *Ctx, raw stdjson.RawMessage) {
 		c.Case()
 		mu := mk("unknown-fields", unk, want)
 		mu.Meter = r.intn(6) == 0
-		if bigNumber(v.Shape) {
+		if bigNumber(v.Shape) || repTagged {
 			mu.Want = ""
 		}
 		c07Total(c, mu)
@@ -715,7 +759,7 @@ func c07Vector(c *Ctx, raw stdjson.RawMessage) {
 		} else {
 			c.Case()
 			ma := mk("unknown-fields-aliasing-low-16-bits", al, want)
-			if bigNumber(v.Shape) {
+			if bigNumber(v.Shape) || repTagged {
 				ma.Want = ""
 			}
 			c07Total(c, ma)
